@@ -125,45 +125,52 @@ Definition with_store (s : st) (l : list cp) (n : Z) : st :=
   mk_st (hubs s) (lm s) l n (legacy_del s).
 
 (* one BrowseResult: status (0 Good, 1 BadNodeIdUnknown, 2 BadContinuationPointInvalid),
-   continuation point (0 = none), number of references (-1 = none), the references;
-   -2 = the code would panic (usize underflow / slice out of range) *)
-Definition enc_result (status cpid : Z) (refs : option (list Z)) : list Z :=
-  match refs with
-  | Some l => status :: cpid :: Z.of_nat (length l) :: l
-  | None => [status; cpid; -1]
+   continuation point (0 = none), the references (None = no list); Panic = the code would panic
+   (usize underflow / slice out of range in reference_description_to_browse_result) *)
+Inductive bres := Res (status cpid : Z) (refs : option (list Z)) | Panic.
+
+(* canonical output: status, continuation point, number of references (-1 = none), references;
+   -2 = panic *)
+Definition enc_bres (r : bres) : list Z :=
+  match r with
+  | Res status cpid (Some l) => status :: cpid :: Z.of_nat (length l) :: l
+  | Res status cpid None => [status; cpid; -1]
+  | Panic => [-2]
   end.
 
 (* reference_description_to_browse_result *)
-Definition page (s : st) (refs : list Z) (start k : nat) : st * list Z :=
-  if (length refs <? start)%nat then (s, [-2])
+Definition page_r (s : st) (refs : list Z) (start k : nat) : st * bres :=
+  if (length refs <? start)%nat then (s, Panic)
   else
     let remaining := (length refs - start)%nat in
     if (0 <? k)%nat && (k <? remaining)%nat then
       let c := mk_cp (next_id s) (lm s) k (start + k) refs in
       (with_store s (add_cp (store s) c) (next_id s + 1),
-       enc_result 0 (next_id s) (Some (firstn k (skipn start refs))))
-    else (s, enc_result 0 0 (Some (skipn start refs))).
+       Res 0 (next_id s) (Some (firstn k (skipn start refs))))
+    else (s, Res 0 0 (Some (skipn start refs))).
 
 Definition eff_k (k : Z) : nat :=
   Z.to_nat (if k =? 0 then MAX_REFS else if MAX_REFS <? k then MAX_REFS else k).
 
-Definition browse_one (k : nat) (s : st) (d : desc) : st * list Z :=
+(* browse_node *)
+Definition browse_one_r (k : nat) (s : st) (d : desc) : st * bres :=
   match nth_hub (hubs s) (d_hub d) with
-  | None => (s, enc_result 1 0 None)
-  | Some g => page s (full_of g d) 0 k
+  | None => (s, Res 1 0 None)
+  | Some g => page_r s (full_of g d) 0 k
   end.
 
-Definition next_one (s : st) (id : Z) : st * list Z :=
+(* browse_from_continuation_point *)
+Definition next_one_r (s : st) (id : Z) : st * bres :=
   match take_cp id (store s) with
-  | None => (s, enc_result 2 0 None)
-  | Some (c, rest) => page (with_store s rest (next_id s)) (cp_refs c) (cp_start c) (cp_k c)
+  | None => (s, Res 2 0 None)
+  | Some (c, rest) => page_r (with_store s rest (next_id s)) (cp_refs c) (cp_start c) (cp_k c)
   end.
 
-Fixpoint thread {A} (f : st -> A -> st * list Z) (s : st) (l : list A) : st * list Z :=
+Fixpoint thread_r {A} (f : st -> A -> st * bres) (s : st) (l : list A) : st * list bres :=
   match l with
   | [] => (s, [])
-  | x :: l' => let '(s1, o1) := f s x in
-               let '(s2, o2) := thread f s1 l' in (s2, o1 ++ o2)
+  | x :: l' => let '(s1, r1) := f s x in
+               let '(s2, rs) := thread_r f s1 l' in (s2, r1 :: rs)
   end.
 
 Fixpoint remove_nth {A} (n : nat) (l : list A) : list A :=
@@ -189,6 +196,20 @@ Definition len_store (s : st) : Z := Z.of_nat (length (store s)).
 Definition known_ids (next : Z) (ids : list Z) : list Z :=
   map (fun i => if i <? next then i else 0) ids.
 
+(* remove_expired_browse_continuation_points *)
+Definition expire (s : st) : st :=
+  with_store s (filter (fun c => lm s <=? cp_lm c) (store s)) (next_id s).
+
+(* the results of a Browse / BrowseNext (not release) / release request that is not refused *)
+Definition browse_r (k : Z) (s : st) (ds : list desc) : st * list bres :=
+  thread_r (browse_one_r (eff_k k)) s ds.
+Definition next_r (s : st) (ids : list Z) : st * list bres :=
+  thread_r next_one_r (expire s) (known_ids (next_id s) ids).
+Definition release_r (s : st) (ids : list Z) : st :=
+  with_store s (filter (fun c => negb (memZ (cp_id c) ids)) (store s)) (next_id s).
+
+Definition enc_results (rs : list bres) : list Z := concat (map enc_bres rs).
+
 (* output of one operation; the last number is the size of the session's store afterwards *)
 Definition step (s : st) (o : op) : st * list Z :=
   match o with
@@ -196,21 +217,18 @@ Definition step (s : st) (o : op) : st * list Z :=
       match ds with
       | [] => (s, [-1; len_store s])                        (* BadNothingToDo *)
       | _ => if (MAX_NODES <? length ds)%nat then (s, [-1; len_store s])  (* BadTooManyOperations *)
-             else let '(s', out) := thread (browse_one (eff_k k)) s ds in
-                  (s', Z.of_nat (length ds) :: out ++ [len_store s'])
+             else let '(s', rs) := browse_r k s ds in
+                  (s', Z.of_nat (length ds) :: enc_results rs ++ [len_store s'])
       end
   | Next release ids =>
       match ids with
       | [] => (s, [-1; len_store s])
       | _ =>
           if release then
-            let s' := with_store s (filter (fun c => negb (memZ (cp_id c) ids)) (store s)) (next_id s) in
-            (s', [0; len_store s'])
+            let s' := release_r s ids in (s', [0; len_store s'])
           else
-            (* remove_expired_browse_continuation_points *)
-            let s0 := with_store s (filter (fun c => lm s <=? cp_lm c) (store s)) (next_id s) in
-            let '(s', out) := thread next_one s0 (known_ids (next_id s) ids) in
-            (s', Z.of_nat (length ids) :: out ++ [len_store s'])
+            let '(s', rs) := next_r s ids in
+            (s', Z.of_nat (length ids) :: enc_results rs ++ [len_store s'])
       end
   | NextForeign id => (s, [1; 2; 0; -1; 0; len_store s])
   | AddNode => (mk_st (hubs s) (lm s + 1) (store s) (next_id s) (legacy_del s), [1; len_store s])
@@ -235,6 +253,37 @@ Definition step (s : st) (o : op) : st * list Z :=
           end
       end
   end.
+
+(* ---- vocabulary of the theorems ------------------------------------------------------------ *)
+Definition exec (s : st) (ops : list op) : st := fold_left (fun s o => fst (step s o)) ops s.
+
+(* Browse one node and then BrowseNext with the continuation point of the previous answer until
+   none remains: the list of pages.  [fuel] bounds the number of BrowseNext calls (the theorem
+   shows that the length of the unpaged result is enough). *)
+Fixpoint follow (fuel : nat) (s : st) (r : bres) : st * list (list Z) :=
+  match r with
+  | Res status cp (Some pg) =>
+      if negb (status =? 0) then (s, [])
+      else if cp =? 0 then (s, [pg])
+      else match fuel with
+           | O => (s, [pg])
+           | S f => match next_r s [cp] with
+                    | (s', [r']) => let '(s'', pgs) := follow f s' r' in (s'', pg :: pgs)
+                    | (s', _) => (s', [pg])
+                    end
+           end
+  | _ => (s, [])
+  end.
+Definition browse_pages (fuel : nat) (s : st) (d : desc) (k : Z) : st * list (list Z) :=
+  match browse_r k s [d] with
+  | (s', [r]) => follow fuel s' r
+  | (s', _) => (s', [])
+  end.
+
+(* a continuation point that can no longer be used: it was issued, and whatever the session still
+   stores under that id is older than the address space *)
+Definition unusable (id : Z) (s : st) : Prop :=
+  id < next_id s /\ forall c, In c (store s) -> cp_id c = id -> cp_lm c < lm s.
 
 Fixpoint run_from (s : st) (ops : list op) : list Z :=
   match ops with
